@@ -848,9 +848,21 @@ class SigmaRegularExpression(SigmaType):
         """
         Replace all occurrences of string part matching regular expression with placeholder.
         """
+
+        def regex_callback(
+            p: Placeholder,
+        ) -> Iterator[str | SpecialChars | Placeholder | "SigmaString"]:
+            for replacement in callback(p):
+                if replacement is SpecialChars.WILDCARD_MULTI:  # wildcard in a regular expression
+                    yield SigmaString(".*", escape=False)
+                elif replacement is SpecialChars.WILDCARD_SINGLE:
+                    yield "."
+                else:
+                    yield replacement
+
         return [
             SigmaRegularExpression(sigmastr, self.flags)
-            for sigmastr in self.regexp.replace_placeholders(callback)
+            for sigmastr in self.regexp.replace_placeholders(regex_callback)
         ]
 
 
